@@ -1542,6 +1542,9 @@ class Interp:
             return {'kind': 'lambda', 'name': '<lambda>', 'term': t}
         if t[0] == 'appcallable':
             return {'kind': 'app', 'name': label, 'recv': recv, 'value': v}
+        if t[0] == 'attr' and not v.types and isinstance(t[2], str):
+            # `f = obj.meth ... f(x)`: a method value of an object without repo type, called later - same as obj.meth(x)
+            return {'kind': 'unknown', 'name': t[2], 'recv': AVal(t[1], None), 'bound': True, 'value': v}
         return {'kind': 'unknown', 'name': label, 'value': v}
 
     def _funcs_by_qual(self, q: str) -> List[FuncInfo]:
